@@ -10,7 +10,7 @@ ID=$1; NAME=${2:-$ID}; PROP=${ID%%_*}
 WT=/tmp/mut_$ID; OUT=/tmp/mut_out/$ID; DST=/verif/seeded/$NAME
 [ -f $OUT/patch.diff ] || { echo "no patch in $OUT"; exit 2; }
 cd $WT || exit 2
-git checkout -q -- . ; git stash list | grep -q . && git stash drop -q
+git checkout -q -- .
 git apply --check $OUT/patch.diff || { echo "patch does not apply to HEAD"; exit 2; }
 PYTHONPATH=$WT/src timeout 600 /venv/bin/python $OUT/demo.py > $OUT/demo_clean.log 2>&1; RC_CLEAN=$?
 git apply $OUT/patch.diff
